@@ -4,13 +4,14 @@ Two parts:
  * theorems (coq/Props/C14.v, lemmas in coq/Lemmas/NoEscape*.v): for every modelled decoder / parser /
    deserialiser / validator / constructor the exception-faithful model never leaves the family
    (`*_no_escape`), for ALL inputs; where the faithful model does leave it the full statement is refuted with
-   a witness and the guard under which it holds is a `_partial` theorem (WifDecoder net_ver);
- * this module: the obligation list = every public entry point that takes str/bytes (built reflectively from
-   the package, so a new entry point is picked up), each driven with generic junk and structure-aware mutations
-   of valid encodings ("<entry>" cases: exception family + wall clock).  Entry points that have a model are in
-   addition compared with it on the same inputs ("model:<entry>" cases, MODEL_MAP below).  The rest is
-   differential fuzzing only -- a test, not a proof -- and the evidence lists which is which
-   (coverage.exhaustive_subdomains).
+   a witness and the guard under which it holds is a `_partial` theorem (Khovratovich-Law child key);
+ * this module: the obligation list = every public entry point that takes str/bytes (ENTRIES, built from the
+   package and the coin tables), each driven with generic junk and structure-aware mutations
+   of valid encodings ("<entry>" cases: exception family + wall clock).  Every entry point has a model and is in
+   addition compared with it on the same inputs ("model:<entry>" cases, MODEL_MAP below: first wave = the models of
+   the other properties' groups, second wave = groups bech32 / addrbech / cardmon and the thin compositions of
+   coq/Model/C14b.v, group c14b).  A new entry point without a model is differential fuzzing only -- a test, not a
+   proof -- and the evidence lists which is which (coverage.exhaustive_subdomains).
 """
 import time
 
@@ -21,28 +22,33 @@ from bip_utils.bip.bip38.bip38_ec import Bip38EcKeysGenerator
 from framework import Func, IN_FAMILY, exn_name
 
 MANIFEST = {
-    "text": "Coq theorems (one per modelled entry point, ~85: text/wire codecs, path parsers, BIP-39 and the other "
-            "mnemonic decoders/validators/generators, seed generators, extended-key and SLIP-32 deserialisers, WIF, "
-            "BIP-38, EC key byte constructors, master key from seed, 27 address decoders) that the exception-faithful "
-            "model never leaves the documented family, for all inputs and arbitrary hash/KDF/curve oracles; for all "
-            "~235 str/bytes entry points (enumerated reflectively): junk + structure-aware mutation run checking the "
-            "exception class and a wall-clock bound, and for the ~120 modelled ones a differential comparison with the "
-            "extracted model on the same inputs.",
-    "note": "Entry points without a model (Bech32/SegWit/CashAddr codecs and the address decoders on them, Cardano and "
-            "Monero addresses, wallet-level constructors) are covered by fuzzing only (listed in the evidence); the "
-            "Bech32-based address pipelines are proved relative to the codec decoder staying in the family; third-party "
-            "exception behaviour is observed, not proved; 'promptly' is a wall-clock test; the master-key loop's "
-            "termination is not a theorem (in_family_or_fuel).",
-    "technique": "Coq proof of no-escape for modelled entry points (error-site analysis: IndexError/OverflowError sites "
-                 "shown unreachable after the preceding length checks) + reflective entry-point census + mutation "
-                 "fuzzing against the exception family + model/implementation differential on the fuzz stream",
+    "text": "Coq theorems (116 theorems + 8 examples, one or more per modelled entry point: text/wire codecs incl. Bech32/SegWit/CashAddr, "
+            "path parsers, BIP-39 and the other mnemonic decoders/validators/generators/containers, seed generators, extended-key "
+            "and SLIP-32 deserialisers, WIF, BIP-38, EC key byte constructors, master keys and FromSeedAndPath of the SLIP-0010 "
+            "and Khovratovich-Law/Icarus/Byron-legacy classes, Bip44-family constructors, Monero/Substrate/Electrum key and wallet "
+            "constructors, the 40 address decoder classes (58 census entries) incl. Monero, Shelley, Byron) that the exception-faithful model never leaves the "
+            "documented family, for all inputs and arbitrary hash/KDF/curve oracles; for all 239 str/bytes entry points "
+            "(enumerated from the package): junk + structure-aware mutation run checking the exception class and a wall-clock "
+            "bound, and for every one of them a differential comparison with the extracted model on the same inputs.",
+    "note": "Every census entry point now has a model and a theorem; what remains outside proof: the models are hand "
+            "transcriptions tied to the code by the differential run; cbor2 / sr25519 / libsodium behaviour is observed (oracles), "
+            "not proved; 'promptly' is a wall-clock test; the termination of the master-key re-hash loops is not a theorem "
+            "(in_family_or_fuel); the Khovratovich-Law child key is refuted for out-of-range parents (finding C14-KHOLAW-OVERFLOW) "
+            "and proved under the bound every seed-derived key satisfies, and unconditionally for the derivator the property demands.",
+    "technique": "Coq proof of no-escape for modelled entry points (error-site analysis: IndexError/OverflowError/TypeError sites "
+                 "shown unreachable after the preceding length checks; fuel bounded by input length) + entry-point census + mutation "
+                 "fuzzing against the exception family (payload-level mutations re-encoded under valid Base58Check / Bech32 / CashAddr / "
+                 "CRC-32 / Keccak / Poly1305 checksums) + model/implementation differential on the fuzz stream",
     "ref": "7/C14",
 }
 RULE = ("Inputs per entry point: fixed junk list (empty, 1-3 symbols, NUL, non-ASCII, non-BMP, lone surrogate, "
         "over-long) + mutations of valid seeds (all truncations, extensions, splices, single-symbol flips, case "
-        "changes, payload-level corruption re-encoded with a valid checksum).  Entry points with a model are in addition "
-        "compared with it (cases 'model:<entry>') on the junk list, the seeds and a sample of the mutations (half of it "
-        "from the payload-level ones); inputs over 1500 symbols are model-compared for the path parsers only.")
+        "changes, payload-level corruption re-encoded with a valid checksum: Base58Check, Bech32/Bech32m/CashAddr, CBOR-level "
+        "mutations of Byron addresses under a valid CRC-32 by an own CBOR encoder, Monero payloads under a valid Keccak "
+        "checksum, HD-path plaintexts under a valid Poly1305 tag).  Every entry point is in addition "
+        "compared with its model (cases 'model:<entry>') on the junk list, the seeds and a sample of the mutations (half of it "
+        "from the payload-level ones; 140 per first-wave entry, 50 per second-wave entry, 10 where every model call runs "
+        "reference EC multiplications); inputs over 1500 symbols are model-compared for the path parsers only.")
 TRUSTED = ["the reflective census (dir(bip_utils) + name patterns) defines the obligation list"]
 ASSUMPTIONS = ["third-party libraries (coincurve, PyNaCl, cbor2, ecdsa) raise what they are observed to raise"]
 BUDGET = {"quick": 200, "thorough": 1500}
@@ -200,6 +206,10 @@ def build():
         o = hc.FromSeed(SEED, coin)
         acc = o.Purpose().Coin().Account(0)
         ks = [o.PrivateKey().ToExtended(), acc.PublicKey().ToExtended(), acc.PrivateKey().ToExtended()]
+        # the depth checks of Bip44Base.__init__: a public master key (below account level), a key one level below
+        # address index (Bip44DepthError both)
+        deep = o.Bip32Object().DerivePath("0'/0'/0'/0'/0'/0'")
+        ks += [o.PublicKey().ToExtended(), deep.PrivateKey().ToExtended(), deep.PublicKey().ToExtended()]
         tag = "%s[%s]" % (hc.__name__, coin.name)
         E(tag + ".FromExtendedKey", "str", (lambda h, c_: lambda s: h.FromExtendedKey(s, c_))(hc, coin), ks)
         E(tag + ".FromSeed", "bytes", (lambda h, c_: lambda b: h.FromSeed(b, c_))(hc, coin), [SEED, SEED[:15]])
